@@ -31,7 +31,7 @@ CHECKS = {
         "technique": "grammar-based exhaustive enumeration of argument lists x layouts on the real tag machinery vs reference evaluator + layout metamorphism",
         "text": "All argument lists from the documented grammar up to a node/arity bound (227 leaves x 33 frames; values <= 4/5 nodes to depth 3; all 1-2/3-argument lists; 523 documented-invalid forms) are printed in 10-36 "
                 "whitespace/quote/trailing-comma/end-tag layouts and executed through {% component %} and a BaseNode tag against two contexts; received (args, kwargs, flags) are compared type-exactly with a reference evaluator "
-                "(stock FilterExpression for leaves, Python semantics for containers, spreads and aggregation) and across layouts; invalid forms must raise TemplateSyntaxError.",
+                "(stock FilterExpression for leaves, Python semantics for containers, spreads and aggregation) and across layouts; invalid forms must raise TemplateSyntaxError. Part F: keyword values spelled like a flag of the tag (`k=only`, `data=default`) in 7 value forms x flag absent / before / after x bound / unbound, on the component, node and slot seams.",
         "note": "bounded by value alphabet, size and depth; leaves judged by stock Django default filters; corners the statement leaves open are skipped or accepted under either reading (duplicate keywords, escape sequences, filters on nested-template strings, whitespace around `=`); receivers are *args/**kwargs (binding is C11)",
     },
     "C03": {
@@ -40,7 +40,7 @@ CHECKS = {
         "technique": "exhaustive enumeration of a scoping family (all name-collision assignments x structure) on the real renderer vs reference scoping model, 2-run non-interference",
         "text": "The unit page -> outer component -> inner component with a slot is enumerated over all assignments of the names {x,y} to 8 binding roles (page variable, with around either tag, outer/inner data, for/with between tag and fill, "
                 "slot data, with around the slot) x kwargs passing x only flags x body kinds x data=/default= aliases x placement depth, each under two page contexts; every position reads every name and each value encodes the role that bound it. "
-                "Outputs are compared with the reference interpreter that implements the statement's isolated/django rules; the caller's Context must be unchanged. The family includes two nested loops around the unit with the outer loop binding a name everybody reads; a loop-state family prints the whole forloop / parentloop counter chain inside fills generated by 1-3 nested loops between tag and fill (0-2 loops around the tag) against plain Python loops.",
+                "Outputs are compared with the reference interpreter that implements the statement's isolated/django rules; the caller's Context must be unchanged. The family includes two nested loops around the unit with the outer loop binding a name everybody reads; a loop-state family prints the whole forloop / parentloop counter chain inside fills generated by 1-3 nested loops between tag and fill (0-2 loops around the tag) against plain Python loops. Assign-after family: an in-place assignment (firstof / cycle .. as) written after a nested component tag must not reach it or its fill (4 kinds x before / after x 4 routes x 2 bodies); one open known finding (cycle .. as onto a host-defined name).",
         "note": "six corners the statement leaves open are kept out of the generator (DESIGN C03 i-vi); two names, one slot, nesting depth 2-3",
     },
     "C04": {
@@ -49,7 +49,7 @@ CHECKS = {
         "technique": "bounded-exhaustive program x asset-assignment enumeration on the real renderer vs first-appearance set/sequence model",
         "text": "Every program of the asset profile with <= N nodes x asset assignments (inline js/css, Media js/css in str/list/dict form, inherited Media, shared files, an unrendered asset-bearing class) "
                 "x page wrappers (none / head+body / explicit placeholders) x document/fragment, and all 25 asset assignments x 5 class-name pairs (incl. non-ASCII names and the same __name__ in two modules) on the programs <= 2 nodes, "
-                "is rendered by the real library through render_dependencies(), the middleware and Component.render(type=); inline JS/CSS must appear once in first-appearance order, every Media file once, nothing of unrendered classes, no marker survives, fragment JSON declares the same sets.",
+                "is rendered by the real library through render_dependencies(), the middleware and Component.render(type=); inline JS/CSS must appear once in first-appearance order, every Media file once, nothing of unrendered classes, no marker survives, fragment JSON declares the same sets. Space P: every component tag that is a direct child of a template moved into an HTML comment / attribute value / textarea.",
         "note": "STATIC_URL=/static/, no manifest storage; media cache cleared between cases; two live classes with one import path and get_js_data/get_css_data are excluded",
     },
     "C05": {
@@ -59,7 +59,7 @@ CHECKS = {
         "text": "Every program of the provide profile (provide k|m at page level, in component templates, around slots, in fills, in loops, nested/shadowing; "
                 "consumers with and without default) with <= N nodes (quick: N<=4 wide profile + N=5 narrow; thorough: N<=5 / 6) is rendered by the real library in both modes and compared with a "
                 "provider-chain reference model (output, KeyError class, injected field names, provided kwargs never template variables, empty provide registries after success); "
-                "plus all render histories <= 3 over 6 representative pages (each render equals its solo result). The provider family is also rendered with unrelated Python-API renders (own provide; succeeding / failing and caught) inside every component's hooks: inject results and registries must not change.",
+                "plus all render histories <= 3 over 6 representative pages (each render equals its solo result). The provider family is also rendered with unrelated Python-API renders (own provide; succeeding / failing and caught) inside every component's hooks: inject results and registries must not change. Part forms: `{% provide ...item %}` over every sequence of <= 3 items from 5 dicts (page loop / component loop / successive renders of one Template) and Python-API renders from slot functions below a provider.",
         "note": "provide tags between a component tag and its fill are outside the profile; bounded program size; single thread (threads are C07)",
     },
     "C06": {
@@ -70,7 +70,7 @@ CHECKS = {
         "text": "For every program of the mixed profile with <= N nodes and every index i of a user-code callback invocation during its render (get_context_data, on_render_before/after, "
                 "Python slot functions, a harness tag at every nodelist position; inject of a missing key as natural fault), the run in which invocation i raises is executed on the real library; "
                 "the escaping exception must be the injected object, all six render registries empty, caller context and metadata stacks restored, sentinels dead, a follow-up render pristine, "
-                "repetition growth-free; plus all ok/fail histories <= 3 over 4 programs. Programs with <= 3 nodes go through the whole fault enumeration again with an unrelated finished / failed-and-caught render nested inside every hook.",
+                "repetition growth-free; plus all ok/fail histories <= 3 over 4 programs. Programs with <= 3 nodes go through the whole fault enumeration again with an unrelated finished / failed-and-caught render nested inside every hook. A two-line exception message must arrive unshortened (path only prepended). Alias family: `default=` alias in nested component bodies - a successful render leaves no registry entry, prepared == rendered.",
         "note": "fault sites are harness callbacks (built-in tag failures represented by the harness tag); liveness via weakref + gc.collect(); bounded program size",
     },
     "C07": {
@@ -79,7 +79,7 @@ CHECKS = {
         "technique": "stateless model checking of real threads: exhaustive schedules up to a preemption bound (CHESS-style iterative context bounding)",
         "text": "Seven 2-thread scenarios (provide/inject incl. a failing render, template compilation through a full LRU cache, first media resolution, lazily created singletons, "
                 "nested vs failing nested renders, one Template object shared by a component inside an extends block and a stock include) are executed on the real library under a baton scheduler for every schedule with <= k preemptions at every line touching process-global state "
-                "(quick k=2 on the provide-error and LRU scenarios, k=1 elsewhere; thorough k=3 / k=2); each thread's result must equal its solo result, no deadlock, no residue, LRU list/dict invariant.",
+                "(quick k=2 on the provide-error and LRU scenarios, k=1 elsewhere; thorough k=3 / k=2); each thread's result must equal its solo result, no deadlock, no residue, LRU list/dict invariant. Further scenarios: one Template object shared by a nested component and a stock include (S9), one Component instance / as_view in two threads (S10), one compiled template rendered with two contexts (S11), and opcode-granular variants of the provide and LRU scenarios (every bytecode of perfutil/provide.py, util/cache.py, template.py, cache.py a scheduling point).",
         "note": "CPython+GIL, preemption between source lines of the scheduling set only (under-approximation: every explored schedule is realisable); 2 threads; library locks become cooperative locks via a wrapper installed before import",
     },
     "C08": {
@@ -105,7 +105,7 @@ CHECKS = {
         "text": "(a) every stock template family with <= N nodes (single / extends+block+block.super / include with-only; if/for/with/filter/autoescape/firstof/cycle, simple_tag with quoted argument, inclusion_tag, ill-formed members) is executed in a "
                 "process that never imports django_components and in the patched process, both engine.debug values x 3 contexts; token streams, outputs, exception class/message/debug line and the Context state after render must be identical. "
                 "(b) every program of the C01 profile (<= N nodes) x every split of one template (two in thorough) into base/child via extends+block (no override / override / block.super) or into an include - plus block.super inside a component body, plus all of it through the dynamic component - is rendered and must equal the flattened program, both modes. "
-                "(c) with Django's cached loader (shared Template objects) every history of <= 3 / <= 4 stock-page and component renders that use the same template files is executed; every operation must give the result it gives as the first operation.",
+                "(c) with Django's cached loader (shared Template objects) every history of <= 3 / <= 4 stock-page and component renders that use the same template files is executed; every operation must give the result it gives as the first operation. Component operations are additionally anchored to the stock render of the named template; a row that extends a base and includes itself is one of the variants.",
         "note": "(a) excludes the two documented lexer differences (`%}` inside quotes, newline inside a tag); Django 5.1 as installed",
     },
     "C11": {
@@ -122,7 +122,7 @@ CHECKS = {
         "design_ref": "DESIGN.md 2.4, 3/C12",
         "technique": "bounded-exhaustive syntax-alphabet strings through parse_tag/Template, token mutations, serialise round trip, settrace step counts on pumped families",
         "text": "All strings of <= 4 / <= 5 tokens over the 19-token syntax alphabet go through parse_tag+compile and 7 tag heads, all <= 4 / <= 5-token template strings through Template(), plus every single-token mutant and every proper prefix (truncation) of a generated family of documented-syntax tags, and every block tag registered in the engine in 8 forms as a nested expression inside a string value: "
-                "the outcome must be a return or TemplateSyntaxError (2 s hang alarm, crashes keyed by call site); the serialise/re-parse fixpoint is checked on every generated tag, and executed-line counts over ~9.3 k pumping and nesting families (incl. never-closed nested-expression openers inside strings) for k up to 128 / 256 must grow at most quadratically.",
+                "the outcome must be a return or TemplateSyntaxError (2 s hang alarm, crashes keyed by call site); the serialise/re-parse fixpoint is checked on every generated tag, and executed-line counts over ~9.3 k pumping and nesting families (incl. never-closed nested-expression openers inside strings) for k up to 128 / 256 must grow at most quadratically. Part regex_time: CPU time of is_dynamic_expression / parse_template on pumped units (<= 2 / 3 tokens, k = 256..2048) may not grow faster than 5.5x on both last doublings.",
         "note": "no random sampling; regex-engine time is guarded by alarms only; CPython 3.12 / Django 5.1, default tag formatter",
     },
     "C13": {
@@ -130,7 +130,7 @@ CHECKS = {
         "design_ref": "DESIGN.md 2.4, 3/C13",
         "technique": "bounded-exhaustive inputs on the real tags vs merge / escape-once / refuse-or-emit models + html.parser round trip",
         "text": "All (defaults, attrs, <= 2 extras) assignments over 17 values for 5 keys, all writing forms, key pairs and hostile names are rendered through {% html_attrs %} and parsed back with html.parser; "
-                "all slot-content kinds x re-pass chains x escape flags, and all js/css strings of <= 3 (thorough <= 4) end-tag look-alike tokens, are checked against the merge, escape-exactly-once and refuse-or-emit models. After every html_attrs render the mappings handed to the tag must be unchanged.",
+                "all slot-content kinds x re-pass chains x escape flags, and all js/css strings of <= 3 (thorough <= 4) end-tag look-alike tokens, are checked against the merge, escape-exactly-once and refuse-or-emit models. After every html_attrs render the mappings handed to the tag must be unchanged. End-tag refusal is also checked after a harmless class with the same import path was rendered and the script cache flushed.",
         "note": "values reach the tag via context variables; appends involving None/True/False, the safe flag after an append and attribute order are agnostic; html.parser is the HTML parser of record",
     },
     "C14": {
@@ -140,7 +140,7 @@ CHECKS = {
         "text": "Every program of the element profile (text, for, <div> elements, slot, component tags with fills, two generated components echoing Component.id) "
                 "with <= N nodes (quick: N<=4 both modes + N=5 loop-free django; thorough: N<=5 / 6) is rendered by the real library; the final HTML is parsed and each element's "
                 "set of data-djc-id-* attributes must equal the set of instances for which the reference interpreter says it is a root; ids distinct and equal to Component.id. "
-                "Depth families chain(d)/nest(d) up to d=200 (quick) / 2000 (thorough). The roots family is also rendered with unrelated side renders (ok / failing at 3 points) inside every hook, and the depth families also with the `only` flag.",
+                "Depth families chain(d)/nest(d) up to d=200 (quick) / 2000 (thorough). The roots family is also rendered with unrelated side renders (ok / failing at 3 points) inside every hook, and the depth families also with the `only` flag. Part real_id_generator runs the library's own id generator while user callbacks reseed / restore `random` (5 perturbations x 4 page shapes).",
         "note": "html.parser trusted; attribute insertion itself happens in the external djc_core_html_parser wheel (not part of the repository)",
     },
     "C15": {
@@ -149,7 +149,7 @@ CHECKS = {
         "technique": "explicit-state BFS to fixpoint over real ComponentRegistry/Library histories vs dict model + tag-table invariant",
         "text": "All register/unregister/get/all/clear histories of every length over 3-4 names x 3 classes are covered by BFS to a fixpoint on real registries for the default, shorthand and a tag-sharing custom formatter, on empty/pre-loaded, "
                 "unprotected/protected private libraries, with one registry, two independent registries and two registries sharing a library (36 configurations); each transition is compared with a dict model and the library tag table; "
-                "all unmerged sequences <= 4 (quick) / <= 5 (thorough) cross-check the state merging; every reachable single-registry state is also probed through a compiled template. One open known finding (shared library). Four single-registry configurations are explored a second time through the module-level @register decorator.",
+                "all unmerged sequences <= 4 (quick) / <= 5 (thorough) cross-check the state merging; every reachable single-registry state is also probed through a compiled template. One open known finding (shared library). Four single-registry configurations are explored a second time through the module-level @register decorator. `mark_protected_tags(lib, [])` (explicitly nothing protected) is one of the protect options.",
         "note": "single-threaded; formatter and protection fixed per history; shared-library clause read over all registries attached to the library; classes with unique import paths",
     },
     "C16": {
@@ -158,7 +158,7 @@ CHECKS = {
         "technique": "bounded-exhaustive class-hierarchy x access-history enumeration on real classes (BFS to fixpoint over reads) vs recursive union model",
         "text": "All component hierarchies up to 4 classes over the full Media / extend alphabet (cut alphabets up to 6) are built as fresh real classes; all (first-)access orders of .media are read and for n<=3 a BFS to a "
                 "fixpoint covers every history of .media/.template/.js/.css/*_file reads on classes and instances. Every read is compared with a recursive union model, with order-independence across access orders, "
-                "with subsequence-consistency of declared lists and with the nearest-definer pair rule. Part D: parent / child / grandchild spread over two directories with same-named files, every ordered choice of the first reads.",
+                "with subsequence-consistency of declared lists and with the nearest-definer pair rule. Part D: parent / child / grandchild spread over two directories with same-named files, every ordered choice of the first reads. Part R: a js / css / template file that appears after a failed first access must be picked up (4 x 4 access routes).",
         "note": "one directory per hierarchy, plain-string paths; multiple-inheritance classes without own Media accepted under either reading; n=5,6 restricted to single-sink shapes; history merging cross-checked by an unmerged depth-2 search",
     },
     "C17": {
@@ -167,7 +167,7 @@ CHECKS = {
         "technique": "bounded-exhaustive file-name x allowed/forbidden-configuration x lookup-path product on the real finder vs suffix/pattern predicate",
         "text": "Every file of a tree holding the full stem x look-alike-extension x depth product is queried through list(), find() under three in-root spellings, find(all=True) and ~100 traversal spellings, "
                 "under every default / empty / singleton / pair configuration of 19 allowed/forbidden entries (metacharacter suffix strings, compiled patterns), three directory layouts and three setting spellings, "
-                "and compared with the reference predicate; six configurations are repeated end-to-end through collectstatic and the dev-server view.",
+                "and compared with the reference predicate; six configurations are repeated end-to-end through collectstatic and the dev-server view. Layouts `both` / `empty`: COMPONENTS.dirs given (one directory / the empty list) next to a non-empty STATICFILES_DIRS, in every spelling of the setting.",
         "note": "POSIX, no symlinks or control characters; patterns judged on the path relative to the component dir; dot-less suffixes only 'no crash' plus files on which both readings agree; Django 5.1 staticfiles",
     },
     "C18": {
@@ -176,7 +176,7 @@ CHECKS = {
         "technique": "explicit-state BFS to fixpoint over real LRUCache / cached_template histories vs OrderedDict model",
         "text": "All get/has/set/clear histories of every length over 4 keys x 2 values are covered by a BFS to fixpoint on the real LRUCache "
                 "(sizes None,0,1,2,3) with an OrderedDict reference model and a list/dict structural invariant checked in every state; "
-                "cached_template() is searched the same way for cache sizes 0,1,2,128 and component renders for all sequences <= 4.",
+                "cached_template() is searched the same way for cache sizes 0,1,2,128 and component renders for all sequences <= 4. Requests whose output depends on the origin (relative include) are part of both searches; the oracle compares cached objects, never the implementation's key tuples.",
         "note": "single-threaded; alphabet of 4 keys/2 values (code is key/value agnostic); CPython 3.12 / Django 5.1 as installed",
     },
 }
